@@ -27,7 +27,9 @@ CONSTS = ["CONST_A", "TRUE", "FALSE", "$SCENARIO_MAIN", "$x", "ACTOR_PLAYER", "L
 STRS = ["", "a", "Hello world", "Hi [hero]!", "x=1, y=2;", "@label_0", "// no comment", "tab\there", "ünï ö",
         "a { b } c", "1.5", "/* c */", "it's", 'say "x"', "line1\nline2", " lead", "trail ", "(p)", "§x", "#",
         # multi-line shapes inside C04's round-trip guard: empty inner lines (paragraph breaks), indented continuation lines
-        "para1\n\npara2", "a\n  indented\nb", "x\n\n\ny", "first\n second\n\nthird"]
+        "para1\n\npara2", "a\n  indented\nb", "x\n\n\ny", "first\n second\n\nthird",
+        # a line of a literal that reads like a source-file attribute
+        "x\n//?: is-ssb-script: true\ny"]
 PM_NAMES = ["m", "Pos 1", "", "ünï", "a,b", "<x>"]
 FIXED = ["1.5", "0.0", "-0.25", "12.50", "3.125", "-7.0", "100.001", "0.5"]
 CORO_NAMES = ["CORO_A", "EVENT_M01", "walk_around", "X1", "_c", "END_TALK"]
